@@ -1149,7 +1149,8 @@ def stream_cpp_shorthand_vs_files(ctx, rng):
                              {"shorthand": S, "option": k, "file_documents": [None if d is None else wire(d) for d in docs],
                               "effective_values": seen})
                     if first_pair is None:
-                        first_pair = (S, k, docs)
+                        j = next(i for i in range(1, len(seen)) if seen[i] != seen[0])
+                        first_pair = (S, k, [docs[0], docs[j]])
     # one pair through the real command line (the pair that failed, else a fixed one)
     S, k, docs = first_pair or (groups[-1] if groups else None, "variable_array_type_include", None)
     if S is not None:
